@@ -20,8 +20,13 @@
    is exact where noted and a stated approximation elsewhere (no theorem and no verdict on the
    unchanged tree depends on those branches).
 
-   The numeric argument arrives as an exact decimal [dec] (sign, coefficient, exponent): that is
-   what Decimal(value).as_tuple() gives for an int, a float, a numeric str or a Decimal.
+   The functions of THIS file take a finite numeric argument as an exact decimal [dec] (sign,
+   coefficient, exponent): what Decimal(value).as_tuple() gives for an int, a finite float or a finite
+   Decimal (and, for decimal_places only, which itself starts with Decimal(value), for a numeric str).
+   A str argument of digit_string does NOT arrive this way: int() reads it by its own grammar (12.5, 1e3
+   and 1.0 are ValueError).  That, and None / bool / nan / inf / Fraction arguments, is
+   Model/ConversionArg.v ([digit_string_v], [decimal_places_v], [conversion_result]), which falls back
+   on the functions below for the finite numeric classes.
 
    int(value)      truncation toward zero (int of an int is the int; int(float) and int(Decimal)
                    both truncate).
@@ -34,8 +39,9 @@
                    0E-1000026; beyond 2*(Emax+prec) scaleb raises InvalidOperation.
    x.quantize(q)   only the exponent of q matters.  ROUND_HALF_EVEN unless a rounding argument is
                    passed ([round_div] has all eight modes).  InvalidOperation when the
-                   exponent is outside [Etiny, Emax] or the result coefficient has more than
-                   28 digits.  The sign of x is kept, also on a zero result.
+                   exponent is outside [Etiny, Emax], when the result coefficient has more than
+                   28 digits, or when the adjusted exponent of the result (exponent + digits - 1)
+                   is above Emax.  The sign of x is kept, also on a zero result.
    Strings are lists of code points.  No proofs in this file. *)
 From Coq Require Import ZArith NArith List Bool.
 Import ListNotations.
@@ -200,6 +206,12 @@ Definition round17 (x : dec) : dec :=
 Definition via_value (v : via) (x : dec) : dec :=
   match v with ViaDirect => x | ViaRepr | ViaStr | ViaFloat => round17 x end.
 
+(* the last test of quantize (mpd_qquantize: adjusted exponent of the result above Emax): with the
+   exponent e <= Emax and at most 28 digits it can only fail for e > Emax - 27, i.e. for a negative
+   digits argument below -999972 *)
+Definition within_emax (r : dec) : res dec :=
+  if emax <? dexp r + ndigits (Z.of_N (coef r)) - 1 then Err DecimalInvalid else Ok r.
+
 Definition quantize_with (r : rounding) (x : dec) (e : Z) : res dec :=
   if (e <? etiny) || (emax <? e) then Err DecimalInvalid
   else
@@ -213,11 +225,11 @@ Definition quantize_with (r : rounding) (x : dec) (e : Z) : res dec :=
         else
           let c' := c * 10 ^ k in
           if 10 ^ prec <=? c' then Err DecimalInvalid
-          else Ok (mkdec (neg x) (Z.to_N c') e)
+          else within_emax (mkdec (neg x) (Z.to_N c') e)
       else
         let c' := round_div r (neg x) c (10 ^ (- k)) in
         if 10 ^ prec <=? c' then Err DecimalInvalid
-        else Ok (mkdec (neg x) (Z.to_N c') e).
+        else within_emax (mkdec (neg x) (Z.to_N c') e).
 
 Definition quantize : dec -> Z -> res dec := quantize_with dp_rounding.
 
